@@ -24,6 +24,8 @@ func C17(c *Ctx) int {
 			Reach: []string{"accepted", "rejected"}, Quiet: true,
 			Bounds: "a two-byte name in @emit( ) / @push_mode( ) / a macro reference / a parser term"})
 	}
+	hs = append(hs, Harness{Name: "fe.TokenName3", Pkg: "internal/codegen", Func: "H_TokenName3", Reach: []string{"accepted", "rejected"}, Quiet: true,
+		Bounds: "a three-byte token name (each byte any letter, digit or underscore) in the default mode"})
 	for others := 0; others <= 2; others++ {
 		h := Harness{Name: fmt.Sprintf("fe.AliasAmbiguity[others=%d]", others), Pkg: "internal/codegen", Func: "H_AliasAmbiguity", Params: map[string]int{"others": others},
 			Reach: []string{"rejected"}, Quiet: true,
